@@ -1665,14 +1665,9 @@ class SMTFormula(Formula):
         return 1
 
     def __neg__(self) -> "SMTFormula":
-        return SMTFormula(
-            z3_push_in_negations(self.formula, negate=True),
-            *self.free_variables(),
-            instantiated_variables=self.instantiated_variables,
-            substitutions=self.substitutions,
-            auto_eval=self.auto_eval,
-            auto_subst=self.auto_subst,
-        )
+        # Z3's simplification of the negated formula can remove free variables
+        # (e.g., for `not (= x x)`); convert_smt_formula_to_nnf accounts for that.
+        return convert_smt_formula_to_nnf(self, negate=True).unwrap()
 
     def __repr__(self):
         return (
